@@ -145,6 +145,43 @@ pub fn time_wait_count() -> Option<u64> {
     None
 }
 
+/// Number of DISTINCT ephemeral ports held by TIME_WAIT sockets (those are the ones a new
+/// `bind(0)` / `connect()` cannot get). Cheap pre-check through sockstat; the exact count (a scan
+/// of /proc/net/tcp) is taken only when the total is high, and is shared for 300 ms.
+pub fn ephemeral_ports_in_time_wait() -> Option<u64> {
+    static CACHE: Mutex<Option<(Instant, u64)>> = Mutex::new(None);
+    let total = time_wait_count()?;
+    if total <= 15000 {
+        return Some(total);
+    }
+    let mut g = CACHE.lock().unwrap_or_else(std::sync::PoisonError::into_inner);
+    if let Some((t, v)) = *g {
+        if t.elapsed() < Duration::from_millis(300) {
+            return Some(v);
+        }
+    }
+    let range = std::fs::read_to_string("/proc/sys/net/ipv4/ip_local_port_range").ok()?;
+    let mut it = range.split_whitespace().filter_map(|x| x.parse::<u16>().ok());
+    let (lo, hi) = (it.next()?, it.next()?);
+    let text = std::fs::read_to_string("/proc/net/tcp").ok()?;
+    let mut ports: HashSet<u16> = HashSet::new();
+    for line in text.lines().skip(1) {
+        let mut f = line.split_whitespace();
+        let (Some(_), Some(local), Some(_), Some(st)) = (f.next(), f.next(), f.next(), f.next()) else { continue };
+        if st != "06" {
+            continue;
+        }
+        if let Some(p) = local.rsplit(':').next().and_then(|h| u16::from_str_radix(h, 16).ok()) {
+            if (lo..=hi).contains(&p) {
+                ports.insert(p);
+            }
+        }
+    }
+    let v = ports.len() as u64;
+    *g = Some((Instant::now(), v));
+    Some(v)
+}
+
 /// A TCP port on which connections are refused for as long as the value lives: the socket is
 /// bound (so nobody else can take the port) but never listens.
 pub struct RefusingPort {
